@@ -95,14 +95,22 @@ def trace_shape(objective, cfg, slow_at=(), ramp=False, max_checks=5, weights=No
     def build(P):
         pb, a, b, objs = declare_problem(P, objective, weights)
         holder = {}
-        with warnings.catch_warnings():
-            warnings.simplefilter("ignore")
-            with stubs.stubbed(P.ex, max_checks=max_checks, slow_at=slow_at, holder=holder) as (solvers, proxy):
-                if ramp:
-                    holder["clock"].slow_at = set(range(10))
-                    holder["clock"].slow = 4.0  # 4, 8, 12, 16 ... : the extrapolated next total exceeds max_time
-                solver = ps.SchedulingSolver(problem=pb, **cfg)
-                result = solver.solve()
+        import processscheduler.solution as pssol
+        saved_dump = pssol.SchedulingSolution.to_json_file
+        if cfg.get("save_intermediate_states"):
+            # environment stub: the intermediate solutions are built by the real code, only the file writing is cut
+            pssol.SchedulingSolution.to_json_file = lambda self_, fn, compact=False: True
+        try:
+            with warnings.catch_warnings():
+                warnings.simplefilter("ignore")
+                with stubs.stubbed(P.ex, max_checks=max_checks, slow_at=slow_at, holder=holder) as (solvers, proxy):
+                    if ramp:
+                        holder["clock"].slow_at = set(range(10))
+                        holder["clock"].slow = 4.0  # 4, 8, 12, 16 ... : the extrapolated next total exceeds max_time
+                    solver = ps.SchedulingSolver(problem=pb, **cfg)
+                    result = solver.solve()
+        finally:
+            pssol.SchedulingSolution.to_json_file = saved_dump
         return Ctx(problem=pb, a=a, b=b, objs=objs, solver=solver, stub=solvers[0], result=result, proxy=proxy, cfg=cfg,
                    shape_slow=bool(slow_at), shape_ramp=ramp)
 
@@ -343,6 +351,8 @@ def shapes(tier):
         out.append(trace_shape(obj, {}, ramp=True, max_checks=K))
         out.append(trace_shape(obj, {"optimizer": "optimize"}, max_checks=2))
         out.append(trace_shape(obj, {"max_time": 5.5, "max_iter": 2}, slow_at=(1,), max_checks=K))
+        if obj in ("makespan", "max_bounded", "min_cost") or thorough:
+            out.append(trace_shape(obj, {"save_intermediate_states": True}, max_checks=K))
     for wobj in ("weighted_min", "weighted_max"):
         for weights in [("sym", "sym"), (0, 1), (1, 0), (2, 3)]:
             out.append(trace_shape(wobj, {}, weights=weights, max_checks=4))
@@ -448,7 +458,11 @@ def replay_trace(desc):
     with contextlib.redirect_stdout(out), warnings.catch_warnings():
         warnings.simplefilter("ignore")
         pb, a, b, objs = declare_problem(P, tr["objective"], getattr(shape, "weights", None))
-        solver = ps.SchedulingSolver(problem=pb, **tr["cfg"])
+        rcfg = dict(tr["cfg"])
+        if rcfg.get("save_intermediate_states"):
+            import tempfile
+            rcfg["save_intermediate_states_path"] = tempfile.mkdtemp(prefix="c07r_")
+        solver = ps.SchedulingSolver(problem=pb, **rcfg)
         holder["solver"] = solver
         saved = pss.z3
         if tr["cfg"].get("optimizer") != "optimize":
@@ -458,6 +472,9 @@ def replay_trace(desc):
         finally:
             pss.z3 = saved
     engine.reset_z3_globals()
+    if rcfg.get("save_intermediate_states_path"):
+        import shutil
+        shutil.rmtree(rcfg["save_intermediate_states_path"], ignore_errors=True)
     text = out.getvalue()
     print("replay: steering log:", log)
     tgt = solver._objective._target if solver._objective is not None else objs[0]._target
@@ -466,7 +483,7 @@ def replay_trace(desc):
     # independent oracle on the concrete instance: the base constraint system, re-built from scratch
     with contextlib.redirect_stdout(io.StringIO()):
         pb2, a2, b2, objs2 = declare_problem(engine.Params("conc", values=w["params"]), tr["objective"], getattr(shape, "weights", None))
-        s2 = ps.SchedulingSolver(problem=pb2, **{k: v for k, v in tr["cfg"].items() if k not in ("max_iter",)})
+        s2 = ps.SchedulingSolver(problem=pb2, **{k: v for k, v in tr["cfg"].items() if k not in ("max_iter", "save_intermediate_states")})
         s2.initialize()
     engine.reset_z3_globals()
     base = list(s2._solver.assertions())
